@@ -38,8 +38,8 @@ type j2kCase struct {
 	// NatRatio > 0: TargetRatio is set to NatRatio times the ratio this image achieves without a
 	// rate target (measured by a preliminary encode in Exec): rate control that converges at once
 	NatRatio float64 `json:"natratio,omitempty"`
-	Class  string  `json:"class"`
-	CSeed  uint64  `json:"cseed"`
+	Class    string  `json:"class"`
+	CSeed    uint64  `json:"cseed"`
 }
 
 func (c *j2kCase) params(lossless bool) *jpeg2000.EncodeParams {
